@@ -301,6 +301,11 @@ def r71(e, rep, g, fx, where, argp, seen_cbs):
             txt = 'callback %s requires %s%s' % (
                 nm, '' if atom[0] else 'not ', atom[1].split('#')[0])
             w = None
+            if not ok and common.unguarded_path(e, g, n, [atom]) is None:
+                # the refusal made by one helper and carried out by another
+                # (`if self._refuse(self._auth_refusal(arg)): return`): no
+                # feasible path reaches the callback without the guard
+                ok = True
             if not ok:
                 # witness: a path to the callback on which the atom was
                 # never established
